@@ -20,6 +20,7 @@ pub mod c15;
 pub mod c16;
 pub mod c17;
 pub mod c20;
+pub mod stdx;
 pub mod util;
 
 /// Structural parameters of a scenario (always concrete).
@@ -56,6 +57,7 @@ pub fn scenario(name: &str) -> Option<Scenario> {
         "c17_geometry" => c17::c17_geometry,
         "c17_threads" => c17::c17_threads,
         "c20_tower" => c20::c20_tower,
+        "stdx_api" => stdx::stdx_api,
         _ => return None,
     })
 }
